@@ -768,7 +768,10 @@ wrapped_interval<Number>::operator||(const wrapped_interval<Number> &x) const {
       delta =
           (m_end * wrapint(2, w)) - (m_start * wrapint(2, w)) + wrapint(1, w);
     }
-    return x | wrapped_interval<Number>(x.m_start, x.m_start + delta);
+    // x contains both ends of *this and neither includes the other: the
+    // join is x, or top if together they cover the whole circle. Joining
+    // with x alone would lose *this in the latter case.
+    return join | wrapped_interval<Number>(x.m_start, x.m_start + delta);
   } else {
     return wrapped_interval<Number>::top();
   }
@@ -910,7 +913,10 @@ wrapped_interval<Number> wrapped_interval<Number>::widening_thresholds(
           (m_end * wrapint(2, w)) - (m_start * wrapint(2, w)) + wrapint(1, w);
     }
     // TODO: apply thresholds
-    return x | wrapped_interval<Number>(x.m_start, x.m_start + delta);
+    // x contains both ends of *this and neither includes the other: the
+    // join is x, or top if together they cover the whole circle. Joining
+    // with x alone would lose *this in the latter case.
+    return join | wrapped_interval<Number>(x.m_start, x.m_start + delta);
   } else {
     return wrapped_interval<Number>::top();
   }
